@@ -21,6 +21,50 @@ func (r *MacroRule) RunPass(ctx *Context, pass Pass) {
 		}
 	}
 	r.Expr.RunPass(ctx, pass)
+
+	if pass == Check {
+		// All names are registered by now. Report a cycle here so that it is
+		// found even when no token or fragment uses the macro.
+		if r.refersTo(ctx, r.Expr, r, make(map[*MacroRule]bool)) {
+			ctx.Errs.Errorf(ctx.Position(r), "macro cycle detected")
+		}
+	}
+}
+
+// refersTo returns whether 'e' references 'target', directly or through other
+// macros.
+func (r *MacroRule) refersTo(
+	ctx *Context,
+	e *LexerExpr,
+	target *MacroRule,
+	visited map[*MacroRule]bool,
+) bool {
+	for _, factor := range e.Factors {
+		for _, termCard := range factor.Terms {
+			switch term := termCard.Term.(type) {
+			case *LexerTermRef:
+				macro, ok := ctx.Lookup(term.Ref).(*MacroRule)
+				if !ok {
+					// Undefined, or not a macro: reported by the term itself.
+					continue
+				}
+				if macro == target {
+					return true
+				}
+				if !visited[macro] {
+					visited[macro] = true
+					if r.refersTo(ctx, macro.Expr, target, visited) {
+						return true
+					}
+				}
+			case *LexerExpr:
+				if r.refersTo(ctx, term, target, visited) {
+					return true
+				}
+			}
+		}
+	}
+	return false
 }
 
 func (r *MacroRule) NFACons(ctx *Context) *mode.NFAComposite {
